@@ -165,7 +165,7 @@ def mk_gated(kind):
     return Controlled
 
 
-SCEN = ["shared_trampoline_timed", "shared_trampoline_immediate", "current_thread_each"]
+SCEN = ["shared_trampoline_timed", "shared_trampoline_immediate", "current_thread_each", "current_thread_singleton"]
 
 
 def _ginst(tier):
@@ -211,6 +211,28 @@ def h_two_threads(a, inst):
             elif scen == "shared_trampoline_immediate":
                 g.spawn(lambda: (S.schedule(act("A1", 0)), S.schedule(act("A2", 0))))
                 g.spawn(lambda: S.schedule(act("B1", 0)))
+            elif scen == "current_thread_singleton":
+                # CurrentThreadScheduler.singleton() from two threads: one trampoline per thread -- an action scheduled by a
+                # thread runs on that thread, before its outermost schedule() call returns, even while the other thread is
+                # in the middle of an action of its own
+                def w2(name):
+                    def body():
+                        s = CurrentThreadScheduler.singleton()
+                        me = g.me()
+                        mine = []
+
+                        def outer(sc, st):
+                            mine.append(("outer", g.me()))
+                            idx = g.me()
+                            if idx is not None:
+                                g.yield_point(idx, "in-action")
+                            sc.schedule(lambda sc2, st2: mine.append(("inner", g.me())))
+                        s.schedule(outer)
+                        if mine != [("outer", me), ("inner", me)]:
+                            bad.append("singleton current-thread work of %s: %r" % (name, mine))
+                    return body
+                g.spawn(w2("a"))
+                g.spawn(w2("b"))
             else:
                 def w(name):
                     def body():
@@ -259,7 +281,7 @@ ENCODED = ["reactivex/scheduler/trampoline.py", "reactivex/scheduler/trampolines
 BOUNDS = {"quick": "trees of 4 nested scheduling nodes (every parent assignment; each node immediate or relative with delay 0..2 s; nodes 1 and 2 "
                    "cancelling the handle of any one node or none) on TrampolineScheduler and CurrentThreadScheduler with a controlled "
                    "clock; two threads: a shared TrampolineScheduler with timed and with immediate actions, and one CurrentThreadScheduler "
-                   "per thread, 1 preemption (coarse yield points: writes, calls, lock/condition operations, inside actions)",
+                   "per thread (own instances, and the process-wide singleton), 1 preemption (coarse yield points: writes, calls, lock/condition operations, inside actions)",
           "thorough": "2 preemptions"}
 ASSUMES = ["the scheduler's now is a controlled clock; threading.Condition inside the trampoline is replaced by a contract stub (one thread: "
            "wait(timeout) returns after the timeout on the controlled clock; two threads: gate-aware Condition/Lock)",
